@@ -7,18 +7,25 @@ from .common import AnalysisError, Report
 from . import cxx, py
 
 META = {
-    'explanation': 'ast rules over tools/validation/arvalgenerator.py, tools/validation/data.py, tools/compare_pytz/tdgenerator.py, '
-                   'tools/compare_dateutil/tdgenerator.py and tools/validator/zstdgenerator.py, with the member order of '
-                   'testing::ValidationItem taken from the clang AST: the rendered initialiser lists the values in member order, each '
-                   'from the TestItem key of the same role, seconds are turned into minutes, strings are quoted, the item count is '
-                   'the length of the rendered list; TestItem keys constructed = declared = read; the pytz and dateutil generators '
-                   'are the same program outside their adapter statements; every detected transition yields a left and a right item, '
-                   'the monthly and year-end samples are emitted for every year, de-duplication compares every numeric field.',
-    'decided': 'rendering preserves every field in the order and unit the C++ struct expects; schema discipline of TestItem in all '
-               'three generators; structural agreement of the pytz/dateutil copies; bracket pairs, samples and de-duplication',
-    'not_decided': 'that every transition of the third-party library is detected (sampling interval, loop exit before the last '
-                   'interval) and that item fields equal what the library reports',
-    'assumptions': ['CPython ast', 'clang 14 parser (member order of testing::ValidationItem)'],
+    'explanation': 'E-SEQ over the Python ast (acv/pyeval.py). ArduinoValidationGenerator.generate_files() is interpreted on tagged '
+                   'TestData; every initialiser of the validation_data.cpp it writes is read back and compared, member by member '
+                   '(member order of testing::ValidationItem from the clang AST), with the item it was rendered from (seconds -> '
+                   'minutes, quoted string or nullptr, char literal), numItems with the list length. Both reference-data '
+                   'generators (compare_pytz, compare_dateutil) are interpreted with pytz / dateutil.tz replaced by the checker\'s '
+                   'model library (acv/tzmodel.py: eight zones as period lists implementing tzinfo with folds, localize / normalize, '
+                   'gettz / resolve_imaginary - yearly DST, a permanent shift at an odd minute, a DST-only change, negative DST, a '
+                   'jump at local midnight on the first of a month, a shift at local New Year far east, a fixed zone), sampling '
+                   'every 22 h and every 40 h: the items must be exactly those the model calls for and the same from both copies; '
+                   '_add_test_item must refuse an item that repeats an epoch with any numeric field changed. ast rules for the '
+                   'TestItem schema (keys constructed == declared, subscripts only).',
+    'decided': 'rendering preserves every field in the order and unit the C++ struct expects; on the model library every transition '
+               'inside the years gets a left and a right item one minute apart with the right tags, every month and year end gets its '
+               'sample, every field is what the library reports at that instant, items are ordered by epoch, both copies agree; '
+               'de-duplication compares every numeric field; schema discipline of TestItem',
+    'not_decided': 'what the real pytz / dateutil report for the real zones (outside the repository); transitions closer together than '
+                   'the sampling interval',
+    'assumptions': ['CPython ast', 'clang 14 parser (member order of testing::ValidationItem)',
+                    'the model of pytz / dateutil.tz in acv/tzmodel.py (PEP 495 folds; localize picks the non-DST reading of an ambiguous time)'],
 }
 
 ROLE = {'epoch': 'epochSeconds', 'total_offset': 'timeOffsetMinutes', 'dst_offset': 'deltaOffsetMinutes', 'y': 'year', 'M': 'month',
